@@ -25,8 +25,13 @@ func MaskedReduce(t *Dense, retType Dtype, fn maskedReduceFn, axis ...int) inter
 
 	// iterate through retVal
 	slices[ax] = makeRS(0, t.shape[ax])
-	for _, err := it.Next(); err == nil; _, err = it.Next() {
-		coord := it.Coord()
+	for i, err := it.Next(); err == nil; i, err = it.Next() {
+		// Coord() is the NEXT coordinate (it is advanced before Next returns): on the last element it is already
+		// out of range. Derive the coordinate of the element just visited from its index instead.
+		coord, cerr := Itol(i, retVal.shape, retVal.strides)
+		if cerr != nil {
+			break
+		}
 		k := 0
 		for d := range slices {
 			if d != ax {
